@@ -44,6 +44,10 @@ CLAIMS = {
   text="CRC-32 burst detection (<=32 bits) for every polynomial with bit 31 set, table form = bitwise form, refusal of bursts / bit flips / 4-byte changes / every truncation / bad magic, version, section count, refusal of every appended tail, and all-or-nothing loading are Coq theorems over CRC parameters and wire constants regenerated from nvm_format.c; the extracted loader is compared with the real nvm_deserialize (ASan) on every single-bit flip and truncation of ~40 files, bursts in both bit numberings, steered tails.",
   note="Fault model: header intact (the header is outside the checksum); MSB-first bursts straddling five bytes are swept, not proved. One open finding: lenient entry loops inside a section (needs a crafted, well-checksummed file).",
   technique="Coq proof + generated parameters + extracted-model correspondence", design="DESIGN.md 5/C12"),
+ 'C13': dict(
+  text="The loader (nvm_deserialize re-modelled with the C's own u32 arithmetic and every buffer access checked, Crash = the C would read/write out of bounds), the verifier and the VM state machine (about 85 opcodes: frames <= 1024, ip inside the current function, index casts, stack_pop on empty = void) are total functions with the theorems: forall byte strings < 2^27: the loader never crashes and a loaded module's tables fit their buffers; the verifier never crashes and every instruction on its sweep decodes; for every fuel the pipeline load -> verify -> run ends in Reject / Finished / VmError / OutOfFuel, never Crash or Signal (vm_safe_partial); the six repairs are each necessary (safe on all inputs <=> all present). The configuration of the model is regenerated from the current source; vm_probe (ASan+UBSan, fork per case, same instruction budget through the fuel hook) is compared with the extracted model on structure-aware mutants of compiler-produced modules, generated bytecode and raw bytes (6k cases quick, 38k thorough): outcome class, result value, CRC of the loaded-module dump, stdout.",
+  note="partial = the modelled opcode set (floats, hashmaps, array arithmetic and FFI answer Unmodelled), no refcounting/free (C14 covers that), no C stack depth: one open finding outside the model (300000-level nested array overflows the C stack in vm_release). Memory safety of code the model does not mirror is exhibited only by the sanitizer correspondence.",
+  technique="Coq proof over cfg-parametrised executable loader/verifier/VM model + source-derived cfg + extracted-model/ASan-probe correspondence", design="DESIGN.md 5/C13, App. A.2"),
  'C14': dict(
   text="Inv (interning table sound; for every live object ref_count >= in-degree from operand stack incl. locals, globals, frame closures and live containers; every reference targets a live object) holds initially and is preserved by every modelled VM opcode from ANY state satisfying it (arbitrary bytecode) and hence by runs; no use-after-free, no double free (ids never reused); the recursive release is a DFS worklist proved with the pending-multiset invariant; exactness (rc = in-degree) and no-leak for leak-free runs. The extracted model replays the real VM's logged instruction stream and must agree on live set, tags, ref_counts and in-degrees at EVERY instruction boundary (~1e5 boundaries per quick run); an independent C-side audit recomputes in-degrees after every instruction (1/4 of the runs under ASan).",
   note="Churn bound is partial (vm_compute on regenerated real instruction streams, not forall k). Hashmap opcodes, element-wise array arithmetic and non-string FFI results are audited on the real VM only. The instruction stream (control flow, indices) is an input of the model run. C recursion depth of vm_release belongs to C13.",
